@@ -201,6 +201,37 @@ theorem TypeKeysAgree_of_no_types {x y : Val} (h : typesIn x = [] ∨ typesIn y 
 theorem C07_type_key_iff (a b : Ty) (ha : TyWF a = true) (hb : TyWF b = true) :
     tyKey a = tyKey b ↔ tyEq a b = true := tyKey_iff a b ha hb
 
+/-- the type kinds of the extension round are inside `tyEq` / `tyKey` (so inside `C07_type_key_iff` and, as values, inside
+    every theorem about `Comparable` values): Default Unit Scalar ScalarData Numeric Binary Data RichData SemVerRange,
+    Boolean[v], Collection[size], NotUndef Sensitive Iterable Iterator, String[size], String['v'], Regexp[/p/], Pattern (a set of
+    a given size, like Enum), TypeReference, SemVer[range].  Non-vacuity: member order of a Pattern, the String['v'] handed out
+    as the string 'v' by Optional and NotUndef, a negative String size bound, a wrapper of Any -/
+example : TyWF (.pattern [[0x61], [0x62], [0x61]]) = true ∧
+    tyEq (.pattern [[0x61], [0x62], [0x61]]) (.pattern [[0x62], [0x61], [0x62]]) = true ∧
+    tyKey (.pattern [[0x61], [0x62], [0x61]]) = tyKey (.pattern [[0x62], [0x61], [0x62]]) ∧
+    tyKey (.pattern [[0x61], [0x62]]) ≠ tyKey (.pattern [[0x61], [0x62], [0x62]]) := by decide
+example : tyKey (.opt (.strVal [0x61])) ≠ tyKey (.opt (.enum false [[0x61]])) ∧
+    tyKey (.un .notUndef (.strVal [0x61])) ≠ tyKey (.un .sensitive (.strVal [0x61])) ∧
+    tyKey (mkStr (-5) 2 []) = tyKey (mkStr 0 2 []) ∧ tyKey (mkStr 0 maxInt []) = tyKey .str := by decide
+example : tyKey (.typ (.strVal [0x61])) = tyKey (.typ (.strVal [0x61])) :=
+  (C07_type_key_iff _ _ (by decide) (by decide)).mpr (by decide)
+example : tyEq (.un .notUndef (.var [.strVal [0x61], .nul .binary])) (.un .notUndef (.var [.nul .binary, .strVal [0x61]])) = true ∧
+    TyWF (.un .notUndef (.var [.strVal [0x61], .nul .binary])) = true := by decide
+example : tyKey (.un .notUndef (.var [.strVal [0x61], .nul .binary])) = tyKey (.un .notUndef (.var [.nul .binary, .strVal [0x61]])) :=
+  (C07_type_key_iff _ _ (by decide) (by decide)).mpr (by decide)
+
+/-- the former witnesses of finding C07-semver-type-all-equal (`SemVerType.Equals` was a bare type assertion: any two SemVer types
+    were Equal, their keys differed; /repo fix 1eb7fb4): `SemVer['1.x']` and `SemVer['2.x']` are no longer Equal, neither is the
+    default `SemVer`; `SemVer['1.x']` and the same ranges written `>=1.0.0 <2.0.0` are Equal and have ONE key -/
+def semverOneX : Ty := .semverT [0x31, 0x2e, 0x78] [.se ⟨.ge, ⟨1, 0, 0, none, none⟩⟩ ⟨.lt, ⟨2, 0, 0, none, none⟩⟩]
+def semverOneN : Ty := .semverT [] [.se ⟨.ge, ⟨1, 0, 0, none, none⟩⟩ ⟨.lt, ⟨2, 0, 0, none, none⟩⟩]
+def semverTwoX : Ty := .semverT [0x32, 0x2e, 0x78] [.se ⟨.ge, ⟨2, 0, 0, none, none⟩⟩ ⟨.lt, ⟨3, 0, 0, none, none⟩⟩]
+theorem C07_semver_type_repaired :
+    TyWF semverOneX = true ∧ TyWF semverTwoX = true ∧ TyWF (.semverT [0x2a] matchAllR) = true ∧
+    tyEq semverOneX semverTwoX = false ∧ tyEq (.semverT [0x2a] matchAllR) semverOneX = false ∧
+    tyEq semverOneX semverOneN = true ∧ tyKey semverOneX = tyKey semverOneN ∧ tyKey semverOneX ≠ tyKey semverTwoX ∧
+    tyKey (.semverT [0x2a] matchAllR) = [1, 0x74] ++ ekStr [0x53, 0x65, 0x6d, 0x56, 0x65, 0x72] := by decide
+
 /-- every type inside a comparable value is well-formed -/
 theorem typesIn_wf : ∀ (n : Nat) (x : Val), sizeOf x ≤ n → cmp x = true → ∀ a ∈ typesIn x, TyWF a = true := by
   intro n
